@@ -6,6 +6,27 @@ platformservice.c packet structs; the firmware is not in the sandbox, so the tab
 about the peer and is listed as trusted).  Field order, types, signs and the version switch are
 stated here independently of the library code; `pack` is the struct model of the engine (and the
 real struct.pack in the native replay).
+
+Structure: one contract per sender for ALL argument values (symbolic floats incl. NaN / inf / overflow, unbounded
+ints, every protocol version -1..255, X-mode on/off), then (extension round, second half of the file) contracts over
+HISTORIES of real calls on one real object (`*.history`, `*.history.3` thorough), documented DEFAULTS and keywords
+(`*.defaults`), byte-sized ids / masks out of range (`*.out-of-range`), a packet object that is addressed again
+(`header.readdressed`), the 30-byte limit end to end for a payload of symbolic length (`*.any-length`), the
+negotiated version across a reconnect with the real senders on the real platform service
+(`platform.protocol-version.reconnect`), and explicit two-thread schedules (`*-during-*`).
+
+NOT covered / bounded / assumed (keep this list current):
+ * the firmware layout table is trusted (see above); compress_quaternion is used through its C13 contract (uninterpreted function);
+ * histories: sequences of 2 commands (3 in the thorough tier) with representable arguments; full-state setpoints take part in a
+   history only in `send_full_state_setpoint.history.*` (fully symbolic only in the thorough tier, 3 commands);
+ * two threads on one sender object: only the schedule point "second command runs while the first is inside cf.send_packet";
+   pre-emption between two statements of one sender is out of reach (the senders keep no per-object state, which `*.history` checks);
+ * send_lh_persist_data_packet: ids in any order up to 3+3 (quick), ascending up to 6+6 (the engine's sort model stops at 6 elements;
+   4+4 in any order needs 3-10 minutes of solver time and 5 elements stay undecided); base stations listed TWICE violate the clause on
+   the unchanged tree (finding, contracts `*.repeated-ids.*`, thorough_only);
+ * send_setpoint with a FLOAT thrust: the fractional case is decided by native sampling when the solver gives up on int(thrust) != thrust;
+ * ports > 15 / channels > 3 are masked by CRTPPacket (not part of the quantifier "all 16 x 4 headers"); CRTPPacket.__str__ / datal / datat
+   (formatting helpers) are not under contract; Crazyflie.send_packet with link None (nothing is transmitted, nothing raised) is outside C08.
 """
 from pyvc.api import contract
 
@@ -356,6 +377,8 @@ def _persist(ng, nc):
 
 for _a, _b in ((0, 0), (1, 0), (0, 2), (2, 1), (3, 3)):
     _persist(_a, _b)
+# (lengths 4_4 take 3..10 minutes and 5_1 / 1_5 stay undecided - the solver cannot bound the sum of five powers of two of distinct ids -
+#  so longer lists are covered by the `ascending` contracts further down: ids in ascending order, up to the 6 elements the sort model handles)
 
 
 # ------------------------------------------------------------------------- Platform service
@@ -505,3 +528,590 @@ def protocol_version(c):
         pk = c.new(STK + ':CRTPPacket', (13 << 4) | 2, other)
     c.call((p, '_platform_callback'), pk)
     c.ensure('other-traffic-does-not-change-the-version', "raised is None and p.get_protocol_version() == expected and len(sent('done')) == 0")
+
+
+# ========================================================================= extension round: histories, defaults, end to end
+#
+# One table states, per sender, its documented signature (required / optional arguments with the documented default) and the
+# firmware layout of the packet it has to emit.  It is written from the firmware structs and the library's documentation,
+# independently of the method bodies, and is used by three families of contracts:
+#   *.history   two commands in a row on the SAME object (every ordered pair of senders, fresh symbolic arguments, client
+#               X-mode and the negotiated protocol version may change between the calls): BOTH packets, inspected after the
+#               second call, decode to the arguments of their own call (a packet handed to send_packet may still wait in the
+#               link queue when the next command is built, so nothing of it may change afterwards)
+#   *.defaults  a call that leaves out the optional arguments decodes to the documented defaults; optional arguments given
+#               by their documented keyword decode to the given values
+#   *.out-of-range  group masks / ids that do not fit their byte raise instead of being wrapped
+
+class _Arg:
+    def __init__(self, name, kind, default=None, optional=False):
+        self.name, self.kind, self.default, self.optional = name, kind, default, optional
+
+
+def _req(name, kind):
+    return _Arg(name, kind)
+
+
+def _opt(name, kind, default):
+    return _Arg(name, kind, default, True)
+
+
+_F4 = ['x', 'y', 'z', 'yaw']
+
+SENDERS = {
+    'commander': [
+        dict(m='send_setpoint', args=[_req('roll', 'f'), _req('pitch', 'f'), _req('yawrate', 'f'), _req('thrust', 'u16')], port=3, ch=0,
+             layout="pack('<fffH', (0.707 * ({roll} - {pitch}) if {xm} else {roll}), -(0.707 * ({roll} + {pitch}) if {xm} else {pitch}), {yawrate}, {thrust})"),
+        dict(m='send_notify_setpoint_stop', args=[_opt('remain_valid_milliseconds', 'u32', 0)], port=7, ch=1,
+             layout="pack('<BI', 0, {remain_valid_milliseconds})"),
+        dict(m='send_stop_setpoint', args=[], port=7, ch=0, layout="pack('<B', 0)"),
+        dict(m='send_velocity_world_setpoint', args=[_req('vx', 'f'), _req('vy', 'f'), _req('vz', 'f'), _req('yawrate', 'f')], port=7, ch=0,
+             layout="(pack('<Bffff', 1, {vx}, {vy}, {vz}, -{yawrate}) if {ver} <= 8 else pack('<Bffff', 8, {vx}, {vy}, {vz}, {yawrate}))"),
+        dict(m='send_zdistance_setpoint', args=[_req('roll', 'f'), _req('pitch', 'f'), _req('yawrate', 'f'), _req('zdistance', 'f')], port=7, ch=0,
+             layout="(pack('<Bffff', 2, {roll}, {pitch}, -{yawrate}, {zdistance}) if {ver} <= 8 else pack('<Bffff', 9, {roll}, {pitch}, {yawrate}, {zdistance}))"),
+        dict(m='send_hover_setpoint', args=[_req('vx', 'f'), _req('vy', 'f'), _req('yawrate', 'f'), _req('zdistance', 'f')], port=7, ch=0,
+             layout="(pack('<Bffff', 5, {vx}, {vy}, -{yawrate}, {zdistance}) if {ver} <= 8 else pack('<Bffff', 10, {vx}, {vy}, {yawrate}, {zdistance}))"),
+        dict(m='send_position_setpoint', args=[_req(a, 'f') for a in _F4], port=7, ch=0, layout="pack('<Bffff', 7, {x}, {y}, {z}, {yaw})"),
+    ],
+    'hl': [
+        dict(m='set_group_mask', args=[_opt('group_mask', 'u8', 0)], port=8, ch=0, layout="pack('<BB', 0, {group_mask})"),
+        dict(m='takeoff', args=[_req('absolute_height_m', 'f'), _req('duration_s', 'f'), _opt('group_mask', 'u8', 0), _opt('yaw', 'f', 0.0)], port=8, ch=0,
+             layout="pack('<BBff?f', 7, {group_mask}, {absolute_height_m}, {yaw}, False, {duration_s})"),
+        dict(m='land', args=[_req('absolute_height_m', 'f'), _req('duration_s', 'f'), _opt('group_mask', 'u8', 0), _opt('yaw', 'f', 0.0)], port=8, ch=0,
+             layout="pack('<BBff?f', 8, {group_mask}, {absolute_height_m}, {yaw}, False, {duration_s})"),
+        dict(m='stop', args=[_opt('group_mask', 'u8', 0)], port=8, ch=0, layout="pack('<BB', 3, {group_mask})"),
+        dict(m='go_to', args=[_req(a, 'f') for a in _F4] + [_req('duration_s', 'f'), _opt('relative', 'b', False), _opt('linear', 'b', False), _opt('group_mask', 'u8', 0)],
+             port=8, ch=0,
+             layout="(pack('<BBBfffff', 4, {group_mask}, {relative}, {x}, {y}, {z}, {yaw}, {duration_s}) if {ver} < 8 else "
+                    "pack('<BBBBfffff', 12, {group_mask}, {relative}, {linear}, {x}, {y}, {z}, {yaw}, {duration_s}))"),
+        # the saturation of angle / radii is the business of the contract hl.spiral; here the arguments are inside the documented ranges
+        dict(m='spiral', args=[_req('angle', 'f6'), _req('r0', 'f+'), _req('rF', 'f+'), _req('ascent', 'f'), _req('duration_s', 'f'),
+                               _opt('sideways', 'b', False), _opt('clockwise', 'b', False), _opt('group_mask', 'u8', 0)], port=8, ch=0, sends='{ver} >= 8',
+             layout="pack('<BBBBfffff', 11, {group_mask}, {sideways}, {clockwise}, {angle}, {r0}, {rF}, {ascent}, {duration_s})"),
+        dict(m='start_trajectory', args=[_req('trajectory_id', 'u8'), _opt('time_scale', 'f', 1.0), _opt('relative', 'b', False), _opt('reversed', 'b', False),
+                                         _opt('group_mask', 'u8', 0)], port=8, ch=0,
+             layout="pack('<BBBBBf', 5, {group_mask}, {relative}, {reversed}, {trajectory_id}, {time_scale})"),
+        dict(m='define_trajectory', args=[_req('trajectory_id', 'u8'), _req('offset', 'u32'), _req('n_pieces', 'u8'), _opt('type', 'u1', 0)], port=8, ch=0,
+             layout="pack('<BBBBIB', 6, {trajectory_id}, 1, {type}, {offset}, {n_pieces})"),
+    ],
+    'loc': [
+        dict(m='send_extpos', args=[_req('pos', 'f3')], port=6, ch=0, layout="pack('<fff', {pos}[0], {pos}[1], {pos}[2])"),
+        dict(m='send_extpose', args=[_req('pos', 'f3'), _req('quat', 'f4')], port=6, ch=1,
+             layout="pack('<Bfffffff', 8, {pos}[0], {pos}[1], {pos}[2], {quat}[0], {quat}[1], {quat}[2], {quat}[3])"),
+        dict(m='send_short_lpp_packet', args=[_req('dest_id', 'u8'), _req('data', 'bytes5')], port=6, ch=1, layout="pack('<BB', 2, {dest_id}) + {data}"),
+        dict(m='send_emergency_stop', args=[], port=6, ch=1, layout="pack('<B', 3)"),
+        dict(m='send_emergency_stop_watchdog', args=[], port=6, ch=1, layout="pack('<B', 4)"),
+        dict(m='send_lh_persist_data_packet', args=[_req('geo_list', 'bs1'), _req('calib_list', 'bs1')], port=6, ch=1,
+             layout="pack('<BHH', 11, 2 ** {geo_list}_0, 2 ** {calib_list}_0)"),
+    ],
+    'platform': [
+        dict(m='set_continous_wave', args=[_req('enabled', 'b')], port=13, ch=0, layout="pack('<B?', 0, {enabled})"),
+        dict(m='send_arming_request', args=[_req('do_arm', 'b')], port=13, ch=0, layout="pack('<B?', 1, {do_arm})"),
+        dict(m='send_crash_recovery_request', args=[], port=13, ch=0, layout="pack('<B', 2)"),
+    ],
+}
+_CLS = {'commander': CMD + ':Commander', 'hl': HLC + ':HighLevelCommander', 'loc': LOC + ':Localization', 'platform': PLT + ':PlatformService'}
+
+
+def _declare(c, a, sfx):
+    """a fresh symbolic, REPRESENTABLE value for argument `a` (what is not representable is the business of the single-call contracts)"""
+    n = a.name + sfx
+    k = a.kind
+    if k in ('f', 'f6', 'f+'):
+        v = c.float(n)
+        c.require({'f': '-1e30 < %s < 1e30', 'f6': '-6.0 <= %s <= 6.0', 'f+': '0.0 <= %s < 1e30'}[k] % n)
+        return v
+    if k == 'b':
+        return c.bool(n)
+    if k in ('u1', 'u8', 'u16', 'u32'):
+        return c.int(n, 0, {'u1': 1, 'u8': 255, 'u16': 65535, 'u32': 2 ** 32 - 1}[k])
+    if k in ('f3', 'f4'):
+        v = c.floats(n, int(k[1]))
+        c.require('all(-1e30 < v < 1e30 for v in %s)' % n)
+        return v
+    if k == 'bytes5':
+        return c.bytes(n, 5)
+    if k == 'bs1':      # a list naming one base station
+        b = c.int(n + '_0', 0, 15)
+        return c.list([b])
+    raise ValueError(k)
+
+
+def _fmt(sp, sfx):
+    names = {a.name: a.name + sfx for a in sp['args']}
+    names['ver'] = 'ver' + sfx
+    names['xm'] = 'xm' + sfx
+    return sp['layout'].format(**names), sp.get('sends', 'True').format(**names)
+
+
+def _n_sent(c, name='cf.send_packet'):
+    return sum(1 for t in (c.get('trace') or ()) if t[0] == name)
+
+
+def _check_step(c, sp, sfx, idx):
+    """the packet number `idx` of the trace is the packet of the call with suffix `sfx`"""
+    layout, _s = _fmt(sp, sfx)
+    hdr = (sp['port'] << 4) | 0xC | sp['ch']
+    c.snapshot('pk' + sfx, 'sent("cf.send_packet")[%d][1][0]' % idx)
+    c.ensure('port-channel-header' + sfx, 'pk%s.port == %d and pk%s.channel == %d and pk%s.header == %d and pk%s.get_header() == %d'
+             % (sfx, sp['port'], sfx, sp['ch'], sfx, hdr, sfx, hdr))
+    c.ensure('layout' + sfx, 'bytes(pk%s.data) == %s' % (sfx, layout))
+    c.ensure('at-most-30-bytes' + sfx, 'len(pk%s.data) <= 30' % sfx)
+
+
+def _history(group, steps=2, thorough_only=False, first=None):
+    specs = SENDERS[group]
+    @contract('C08', '%s.history%s%s' % (group, '' if steps == 2 else '.%d' % steps, '' if first is None else '.first-' + specs[first]['m']),
+              [_CLS[group] + '.' + sp['m'] for sp in specs],
+              clause=CLAUSE + ' - for EVERY command of a sequence on one object: each packet, inspected after the last call, still decodes to the arguments, '
+              'X-mode and protocol version of its own call (no state of an earlier command, port, channel, payload or version, leaks into a later one, and a '
+              'later command does not alter a packet already handed to send_packet)',
+              bounded='sequences of %d commands (every ordered tuple of the %d senders of the class%s); arguments restricted to representable values'
+              % (steps, len(specs), '' if first is None else ' that starts with ' + specs[first]['m']),
+              thorough_only=thorough_only, max_paths=20000)
+    def k(c):
+        phase = {'v': -1}
+        cf = c.ext('cf', returns={'platform.get_protocol_version': lambda *_a: phase['v']})
+        obj = c.new(_CLS[group], cf)
+        c.reset_trace()
+        done = []
+        for i in range(1, steps + 1):
+            sfx = '_%d' % i
+            phase['v'] = c.int('ver' + sfx, -1, 255)
+            if group == 'commander':
+                c.call((obj, 'set_client_xmode'), c.bool('xm' + sfx))
+            sp = specs[first if (i == 1 and first is not None) else c.choice('cmd' + sfx, list(range(len(specs))))]
+            vals = [_declare(c, a, sfx) for a in sp['args']]
+            before = _n_sent(c)
+            c.call((obj, sp['m']), *vals)
+            c.ensure('no-exception' + sfx, 'raised is None')
+            _l, sends = _fmt(sp, sfx)
+            c.ensure('one-packet-per-command' + sfx, 'len(sent("cf.send_packet")) == %d + (1 if %s else 0)' % (before, sends))
+            if _n_sent(c) == before + 1:
+                done.append((sp, sfx, before))
+        for sp, sfx, idx in done:
+            _check_step(c, sp, sfx, idx)
+    return k
+
+
+for _g in ('commander', 'hl', 'loc', 'platform'):
+    _history(_g)
+for _g in ('hl', 'loc', 'platform'):
+    _history(_g, steps=3, thorough_only=True)
+for _i in range(len(SENDERS['commander'])):      # split by the first command: one job per core
+    _history('commander', steps=3, thorough_only=True, first=_i)
+
+
+def _defaults(group):
+    specs = [sp for sp in SENDERS[group]]
+    @contract('C08', group + '.defaults', [_CLS[group] + '.' + sp['m'] for sp in specs] + ([CMD + ':Commander.__init__'] if group == 'commander' else []),
+              clause=CLAUSE + ' - the arguments the caller leaves out are the documented defaults (group mask 0 = all groups, yaw 0.0, relative / linear / reversed / '
+              'sideways / clockwise False, time scale 1.0, trajectory type POLY4D = 0, remain-valid 0 ms, client X-mode off for a new Commander), and optional '
+              'arguments given by their documented keyword decode like positional ones')
+    def k(c):
+        cf, ver = cf_with_version(c)
+        c.let('ver_d', ver)
+        c.let('xm_d', False)           # a new Commander is in +-mode: set_client_xmode is NOT called here
+        obj = c.new(_CLS[group], cf)
+        c.reset_trace()
+        sp = specs[c.choice('cmd', list(range(len(specs))))]
+        has_opt = any(a.optional for a in sp['args'])
+        style = c.choice('style', ['left-out', 'by-keyword'] if has_opt else ['left-out'])
+        pos, kw = [], {}
+        for a in sp['args']:
+            if not a.optional:
+                pos.append(_declare(c, a, '_d'))
+            elif style == 'left-out':
+                c.let(a.name + '_d', a.default)
+            else:
+                kw[a.name] = _declare(c, a, '_d')
+        c.call((obj, sp['m']), *pos, **kw)
+        c.ensure('no-exception', 'raised is None')
+        _l, sends = _fmt(sp, '_d')
+        c.ensure('one-packet-per-command', 'len(sent("cf.send_packet")) == (1 if %s else 0)' % sends)
+        if _n_sent(c) == 1:
+            _check_step(c, sp, '_d', 0)
+    return k
+
+
+for _g in ('commander', 'hl'):
+    _defaults(_g)
+
+
+# ------------------------------------------------------------------------- ids and masks that do not fit their byte
+
+def _byte_arg(name, cls_key, method, args, byte_arg, layout, sends='True'):
+    @contract('C08', name + '.out-of-range', [_CLS.get(cls_key, cls_key) + '.' + method],
+              clause='arguments that cannot be represented raise instead of being sent wrapped or clipped silently: `%s` is one unsigned byte on the wire' % byte_arg)
+    def k(c):
+        cf, ver = cf_with_version(c)
+        if cls_key == 'lopo':
+            l = c.new(LOC + ':Localization', cf)
+            obj = c.new(LPO + ':LoPoAnchor', c.ext('cf2', attrs={'loc': l}))
+        else:
+            obj = c.new(_CLS[cls_key], cf)
+        c.reset_trace()
+        vals = []
+        for a in args:
+            if a.name == byte_arg:
+                vals.append(c.int(a.name + '_d'))          # ANY integer
+            else:
+                vals.append(_declare(c, a, '_d'))
+        c.call((obj, method), *vals)
+        c.let('v', c.get(byte_arg + '_d'))
+        c.ensure('raises-iff-not-a-byte', 'iff(raised is None, 0 <= v <= 255 or not (%s))' % sends)
+        if c.get('raised') is None:
+            c.ensure('one-packet-per-command', 'len(sent("cf.send_packet")) == (1 if %s else 0)' % sends)
+            if _n_sent(c) == 1:
+                c.ensure('sent-unchanged', 'bytes(sent("cf.send_packet")[0][1][0].data) == ' + layout)
+        else:
+            c.ensure('nothing-sent-when-raising', 'len(sent("cf.send_packet")) == 0')
+            c.ensure('declared-errors-only', "raised == 'struct.error'")
+    return k
+
+
+for _sp in SENDERS['hl']:
+    for _b in ('group_mask', 'trajectory_id', 'n_pieces'):
+        if any(a.name == _b for a in _sp['args']) and not (_sp['m'] == 'set_group_mask' or (_sp['m'] in ('start_trajectory', 'define_trajectory') and _b == 'trajectory_id')
+                                                               or _b == 'n_pieces'):
+            # (set_group_mask, trajectory ids and piece counts are already unbounded in the single-call contracts above)
+            _lay = _fmt(dict(_sp, layout=_sp['layout'].replace('{ver}', 'ver')), '_d')[0]
+            _byte_arg('hl.%s.%s' % (_sp['m'], _b), 'hl', _sp['m'], _sp['args'], _b, _lay, sends=_sp.get('sends', 'True').replace('{ver}', 'ver'))
+
+_LOPO_POS = [_req('anchor_id', 'u8'), _req('position', 'f3')]
+_byte_arg('lopo.set_position.anchor_id', 'lopo', 'set_position', _LOPO_POS, 'anchor_id',
+          "pack('<BBBfff', 2, anchor_id_d, 1, position_d[0], position_d[1], position_d[2])")
+for _m, _code in (('reboot', 2), ('set_mode', 3)):
+    _byte_arg('lopo.%s.anchor_id' % _m, 'lopo', _m, [_req('anchor_id', 'u8'), _req('mode', 'u8')], 'anchor_id',
+              "pack('<BBBB', 2, anchor_id_d, %d, mode_d)" % _code)
+
+
+# ------------------------------------------------------------------------- header byte of a packet object that is addressed again
+
+@contract('C08', 'header.readdressed', [STK + ':CRTPPacket.__init__', STK + ':CRTPPacket.set_header', STK + ':CRTPPacket._update_header',
+                                        STK + ':CRTPPacket._set_port', STK + ':CRTPPacket._set_channel', STK + ':CRTPPacket.get_header'],
+          clause='the header byte encodes port and channel losslessly for every port and channel - also on a packet object that already carries '
+                 'any other header (a received packet that is answered, a packet addressed a second time): no bit of the earlier port / channel survives, '
+                 'and setting only the port (only the channel) keeps the other one')
+def header_readdressed(c):
+    c.int('h', 0, 255)
+    pk = c.new(STK + ':CRTPPacket', c.get('h'))
+    c.let('pk', pk)
+    c.let('port_0', None), c.let('channel_0', None)
+    for i, orders in ((1, ['set_header', 'port_then_channel', 'channel_then_port']),
+                      (2, ['set_header', 'port_then_channel', 'channel_then_port', 'port_only', 'channel_only'])):
+        c.int('port_%d' % i, 0, 15), c.int('channel_%d' % i, 0, 3)
+        order = c.choice('order_%d' % i, orders)
+        p, ch = c.get('port_%d' % i), c.get('channel_%d' % i)
+        if order == 'set_header':
+            c.call((pk, 'set_header'), p, ch)
+        elif order == 'port_then_channel':
+            c.call((pk, '_set_port'), p)
+            c.call((pk, '_set_channel'), ch)
+        elif order == 'channel_then_port':
+            c.call((pk, '_set_channel'), ch)
+            c.call((pk, '_set_port'), p)
+        elif order == 'port_only':
+            c.call((pk, '_set_port'), p)
+            c.let('channel_2', c.get('channel_1'))
+        else:
+            c.call((pk, '_set_channel'), ch)
+            c.let('port_2', c.get('port_1'))
+        c.ensure('no-exception_%d' % i, 'raised is None')
+        c.ensure('header-value_%d' % i, 'pk.header == port_%d * 16 + 12 + channel_%d and pk.get_header() == pk.header' % (i, i))
+        c.ensure('lossless_%d' % i, '(pk.header >> 4) == port_%d and (pk.header & 3) == channel_%d and pk.port == port_%d and pk.channel == channel_%d' % (i, i, i, i))
+
+
+# ------------------------------------------------------------------------- the 30-byte limit, end to end, for every payload length
+
+def _real_cf(c):
+    """a Crazyflie object whose send_packet is the REAL one, over a recording link (as in `size-limit`)"""
+    link = c.ext('link', attrs={'needs_resending': False})
+    return c.obj('cflib.crazyflie:Crazyflie', link=link, _send_lock=c.lock('send_lock'), packet_sent=c.ext('packet_sent'),
+                 _answer_patterns=c.dict([]), incoming=c.ext('incoming'))
+
+
+def _next_command_still_goes_out(c, l):
+    """second use: whatever happened to the first command (sent or refused), the next one is one packet again"""
+    c.snapshot('n_before', "len(sent('link.send_packet'))")
+    c.call((l, 'send_emergency_stop'))
+    c.ensure('next-command-is-transmitted', "raised is None and len(sent('link.send_packet')) == n_before + 1 and "
+             "bytes(sent('link.send_packet')[-1][1][0].data) == pack('<B', 3) and sent('link.send_packet')[-1][1][0].header == 0x6D")
+
+
+@contract('C08', 'loc.send_short_lpp_packet.any-length', [LOC + ':Localization.send_short_lpp_packet', 'cflib.crazyflie:Crazyflie.send_packet',
+                                                          STK + ':CRTPPacket.is_data_size_valid', STK + ':CRTPPacket._set_data'],
+          clause=CLAUSE + ' - for an LPP payload of ANY length (symbolic length and content): up to 28 bytes it is transmitted once, complete and unchanged behind the '
+          '2-byte LPP header; a longer one does not fit the 30 payload bytes and raises before anything is transmitted (never truncated, never split)')
+def lpp_any_length(c):
+    cf = _real_cf(c)
+    l = c.new(LOC + ':Localization', cf)
+    c.reset_trace()
+    c.int('dest', 0, 255)
+    data = c.view('data', 'bytes')
+    c.call((l, 'send_short_lpp_packet'), c.get('dest'), data)
+    c.ensure('raises-iff-too-long', 'iff(raised is None, len(data) <= 28)')
+    if c.get('raised') is None:
+        c.ensure('transmitted-once', "len(sent('link.send_packet')) == 1")
+        c.snapshot('pk', "sent('link.send_packet')[0][1][0]")
+        c.ensure('port-channel-header', 'pk.port == 6 and pk.channel == 1 and pk.header == 0x6D')
+        c.ensure('complete-and-unchanged', "len(pk.data) == len(data) + 2 and bytes(pk.data[0:2]) == pack('<BB', 2, dest) and bytes(pk.data[2:]) == data")
+        c.ensure('at-most-30-bytes', 'len(pk.data) <= 30')
+    else:
+        c.ensure('nothing-transmitted-when-refused', "len(sent('link.send_packet')) == 0")
+    _next_command_still_goes_out(c, l)
+
+
+@contract('C08', 'size-limit.any-length', [STK + ':CRTPPacket.is_data_size_valid', STK + ':CRTPPacket.available_data_size', STK + ':CRTPPacket.get_data_size',
+                                           'cflib.crazyflie:Crazyflie.send_packet'],
+          clause='a payload above 30 bytes is refused by Crazyflie.send_packet before anything is transmitted, a payload of at most 30 bytes is transmitted once and '
+                 'unchanged - for a payload of ANY length and content (symbolic length), set by the constructor or by the data property; after a refusal the next command still goes out')
+def size_limit_any(c):
+    cf = _real_cf(c)
+    l = c.new(LOC + ':Localization', cf)
+    c.reset_trace()
+    data = c.view('data', 'bytes')
+    how = c.choice('data_set_by', ['constructor', 'property'])
+    if how == 'constructor':
+        pk = c.new(STK + ':CRTPPacket', 0x30, data)
+    else:
+        pk = c.new(STK + ':CRTPPacket', 0x30)
+        c.call((pk, '_set_data'), data)
+    c.let('pk', pk)
+    c.call((cf, 'send_packet'), pk)
+    c.ensure('refused-iff-too-large', 'iff(raised is not None, len(data) > 30)')
+    c.ensure('nothing-transmitted-when-refused', "implies(len(data) > 30, len(sent('link.send_packet')) == 0)")
+    c.ensure('transmitted-once-and-unchanged-otherwise', "implies(len(data) <= 30, len(sent('link.send_packet')) == 1 and is_same(sent('link.send_packet')[0][1][0], pk) and "
+             "bytes(pk.data) == data and len(pk.data) == len(data))")
+    _next_command_still_goes_out(c, l)
+
+
+# ------------------------------------------------------------------------- lighthouse persist: lists that name a base station twice
+# FINDING on the unchanged tree (reported to the maintainer; thorough_only so that the quick tier stays green): the masks are built with
+# `mask += 1 << bs`, so a base station listed twice sets the NEXT bit: send_lh_persist_data_packet([1, 1], []) sends geometry mask 0x0004
+# (base station 2, which the caller never listed, and not base station 1).
+
+def _first(lst, i):
+    return 'all(%s[j] != %s[%d] for j in range(%d))' % (lst, lst, i, i)
+
+
+def _persist_dup(ng, nc):
+    @contract('C08', 'loc.send_lh_persist_data_packet.repeated-ids.%d_%d' % (ng, nc), [LOC + ':Localization.send_lh_persist_data_packet'],
+              clause=CLAUSE + ': mask bit i set iff base station i is listed - also when the caller lists a base station more than once (or the call raises; '
+              'it must not persist another base station than the listed ones)', bounded='list lengths %d and %d' % (ng, nc), thorough_only=True)
+    def k(c):
+        l = loc(c)
+        geo = c.ints('geo', ng, 0, 15)
+        cal = c.ints('cal', nc, 0, 15)
+        c.snapshot('geo0', 'tuple(geo)')
+        c.snapshot('cal0', 'tuple(cal)')
+        c.call((l, 'send_lh_persist_data_packet'), geo, cal)
+        if c.get('raised') is None:
+            check_packet(c, 6, 1, "pack('<BHH', 11, %s, %s)" % (
+                ' + '.join(['0'] + ['(2 ** geo0[%d] if %s else 0)' % (i, _first('geo0', i)) for i in range(ng)]),
+                ' + '.join(['0'] + ['(2 ** cal0[%d] if %s else 0)' % (i, _first('cal0', i)) for i in range(nc)])))
+        else:
+            check_packet(c, 6, 1, '', errors=('Exception', 'ValueError', 'struct.error'))
+    return k
+
+
+for _a, _b in ((2, 0), (1, 2)):
+    _persist_dup(_a, _b)
+
+
+# ------------------------------------------------------------------------- the negotiated version across a reconnect, end to end with the senders
+
+@contract('C08', 'platform.protocol-version.reconnect', [PLT + ':PlatformService.fetch_platform_informations', PLT + ':PlatformService._platform_callback',
+                                                         PLT + ':PlatformService._crt_service_callback', PLT + ':PlatformService.get_protocol_version',
+                                                         CMD + ':Commander.send_hover_setpoint', HLC + ':HighLevelCommander.go_to'],
+          clause='the layout is the one of the protocol version negotiated with the CURRENT peer: when the same Crazyflie object connects again, the version of '
+                 'the earlier connection is forgotten when the new negotiation starts (not negotiated = -1 until the new peer has answered), the new peer\'s answer '
+                 '(or its missing link service) decides, and the REAL senders reading the REAL platform service switch layouts accordingly')
+def protocol_version_reconnect(c):
+    cf = c.ext('cf')
+    p = c.new(PLT + ':PlatformService', cf)
+    c.let('p', p)
+    cfs = c.ext('cfs', attrs={'platform': p})
+    cmd = c.new(CMD + ':Commander', cfs)
+    hlc = c.new(HLC + ':HighLevelCommander', cfs)
+    magic = b'Bitcraze Crazyflie\x00'
+    # first connection: a peer with the link service that reports ver1
+    c.int('ver1', 0, 255)
+    c.call((p, 'fetch_platform_informations'), c.ext('done1'))
+    c.call((p, '_crt_service_callback'), c.new(STK + ':CRTPPacket', (15 << 4) | 1, magic))
+    c.call((p, '_platform_callback'), c.new(STK + ':CRTPPacket', (13 << 4) | 1, c.snapshot('vr1', 'bytes([0, ver1])')))
+    c.ensure('first-connection-negotiated', "raised is None and p.get_protocol_version() == ver1 and len(sent('done1')) == 1")
+    # second connection
+    c.reset_trace()
+    c.call((p, 'fetch_platform_informations'), c.ext('done2'))
+    c.ensure('earlier-version-forgotten-when-negotiation-restarts', 'raised is None and p.get_protocol_version() == -1')
+    if c.choice('new_peer_has_link_service', [True, False]):
+        c.call((p, '_crt_service_callback'), c.new(STK + ':CRTPPacket', (15 << 4) | 1, magic))
+        c.int('ver2', 0, 255)
+        c.call((p, '_platform_callback'), c.new(STK + ':CRTPPacket', (13 << 4) | 1, c.snapshot('vr2', 'bytes([0, ver2])')))
+        c.let('ver', c.get('ver2'))
+    else:
+        c.call((p, '_crt_service_callback'), c.new(STK + ':CRTPPacket', (15 << 4) | 1, c.ints('junk', 3, 0, 127, kind='bytes')))
+        c.let('ver', -1)
+    c.ensure('new-peer-decides', "raised is None and p.get_protocol_version() == ver and len(sent('done2')) == 1 and len(sent('done1')) == 0")
+    # the real senders over the real platform service
+    c.reset_trace()
+    for a in ('vx', 'vy', 'yawrate', 'zdistance', 'x', 'y', 'z', 'yaw', 'dur'):
+        c.float(a)
+        c.require('-1e30 < %s < 1e30' % a)
+    c.bool('relative'), c.bool('linear'), c.int('gm', 0, 255)
+    c.call((cmd, 'send_hover_setpoint'), c.get('vx'), c.get('vy'), c.get('yawrate'), c.get('zdistance'))
+    c.ensure('hover-sent', "raised is None and len(sent('cfs.send_packet')) == 1")
+    c.call((hlc, 'go_to'), c.get('x'), c.get('y'), c.get('z'), c.get('yaw'), c.get('dur'), c.get('relative'), c.get('linear'), c.get('gm'))
+    c.ensure('go-to-sent', "raised is None and len(sent('cfs.send_packet')) == 2")
+    if _n_sent(c, 'cfs.send_packet') == 2:
+        c.ensure('hover-layout-of-current-peer', "bytes(sent('cfs.send_packet')[0][1][0].data) == (pack('<Bffff', 5, vx, vy, -yawrate, zdistance) if ver <= 8 else "
+                 "pack('<Bffff', 10, vx, vy, yawrate, zdistance))")
+        c.ensure('go-to-layout-of-current-peer', "bytes(sent('cfs.send_packet')[1][1][0].data) == (pack('<BBBfffff', 4, gm, relative, x, y, z, yaw, dur) if ver < 8 else "
+                 "pack('<BBBBfffff', 12, gm, relative, linear, x, y, z, yaw, dur))")
+
+
+@contract('C08', 'send_setpoint.float-thrust', [CMD + ':Commander.send_setpoint'],
+          clause='arguments that cannot be represented raise instead of being sent wrapped or clipped silently: a thrust given as a float that is fractional or outside '
+                 '0..65535 is never sent rounded / truncated; an integral float in range is either refused too or sent as exactly that value')
+def send_setpoint_float_thrust(c):
+    self = commander(c, c.ext('cf'))
+    for a in ('roll', 'pitch', 'yawrate'):
+        c.float(a)
+        c.require('-1e30 < %s < 1e30' % a)
+    c.float('thrust')
+    c.require('-1e6 < thrust < 1e6')
+    c.call((self, 'send_setpoint'), c.get('roll'), c.get('pitch'), c.get('yawrate'), c.get('thrust'))
+    c.ensure('fractional-or-out-of-range-raises', 'implies(thrust != int(thrust) or thrust < 0 or thrust > 65535, raised is not None)')
+    if c.get('raised') is None:
+        c.ensure('exactly-one-packet', 'len(sent("cf.send_packet")) == 1')
+        c.ensure('sent-exactly', 'bytes(sent("cf.send_packet")[0][1][0].data[12:14]) == pack("<H", int(thrust))')
+    else:
+        c.ensure('nothing-sent-when-raising', 'len(sent("cf.send_packet")) == 0')
+        c.ensure('declared-errors-only', "raised in ('ValueError', 'struct.error')")
+
+
+def _persist_sorted(ng, nc):
+    @contract('C08', 'loc.send_lh_persist_data_packet.ascending.%d_%d' % (ng, nc), [LOC + ':Localization.send_lh_persist_data_packet'],
+              clause=CLAUSE + ': mask bit i set iff base station i is listed',
+              bounded='list lengths %d and %d, ids given in ascending order (any order is covered up to length 4 by the contracts above)' % (ng, nc))
+    def k(c):
+        l = loc(c)
+        geo = c.ints('geo', ng, 0, 15)
+        cal = c.ints('cal', nc, 0, 15)
+        c.require('all(geo[i] < geo[i + 1] for i in range(len(geo) - 1))')
+        c.require('all(cal[i] < cal[i + 1] for i in range(len(cal) - 1))')
+        c.snapshot('geo0', 'tuple(geo)')
+        c.snapshot('cal0', 'tuple(cal)')
+        c.call((l, 'send_lh_persist_data_packet'), geo, cal)
+        c.ensure('valid-ids-are-accepted', 'raised is None')
+        if c.get('raised') is None:
+            check_packet(c, 6, 1, "pack('<BHH', 11, sum(2 ** g for g in geo0), sum(2 ** g for g in cal0))")
+    return k
+
+
+for _a, _b in ((5, 5), (6, 6)):
+    _persist_sorted(_a, _b)
+
+
+# ------------------------------------------------------------------------- two threads use one sender object (explicit schedule)
+
+def _interleaved(name, group, outer, inner):
+    so = [sp for sp in SENDERS[group] if sp['m'] == outer][0]
+    si = [sp for sp in SENDERS[group] if sp['m'] == inner][0]
+    @contract('C08', name, [_CLS[group] + '.' + outer, _CLS[group] + '.' + inner],
+              clause=CLAUSE + ' - when a second thread (watchdog / emergency / supervisor) issues its own command on the same object while the first thread is '
+              'inside send_packet with a finished packet: two packets, each decoding to its own command',
+              bounded='one schedule point: the second thread runs its whole command while the first one is inside cf.send_packet (pre-emption between two '
+              'statements of packet construction is not modelled; the senders keep no state on the object, see *.history)')
+    def k(c):
+        nested = []
+        ver = c.int('ver', -1, 255)
+        c.let('ver_o', ver), c.let('ver_i', ver), c.let('xm_o', False), c.let('xm_i', False)
+        holder = {}
+
+        def send(_i, _args, _k):
+            if not nested:
+                nested.append(1)
+                c.invoke((holder['obj'], inner), *holder['inner_vals'])
+            return None
+        cf = c.ext('cf', returns={'platform.get_protocol_version': ver, 'send_packet': send})
+        obj = c.new(_CLS[group], cf)
+        holder['obj'] = obj
+        holder['inner_vals'] = [_declare(c, a, '_i') for a in si['args']]
+        vals = [_declare(c, a, '_o') for a in so['args']]
+        c.reset_trace()
+        c.call((obj, outer), *vals)
+        c.ensure('no-exception', 'raised is None')
+        c.ensure('two-packets', 'len(sent("cf.send_packet")) == 2')
+        if _n_sent(c) == 2:
+            lo, li = _fmt(so, '_o')[0], _fmt(si, '_i')[0]
+            ho, hi = (so['port'] << 4) | 0xC | so['ch'], (si['port'] << 4) | 0xC | si['ch']
+            c.snapshot('A', 'sent("cf.send_packet")[0][1][0]')
+            c.snapshot('B', 'sent("cf.send_packet")[1][1][0]')
+            one = '(bytes({0}.data) == %s and {0}.header == %d and bytes({1}.data) == %s and {1}.header == %d)' % (lo, ho, li, hi)
+            c.ensure('each-packet-decodes-to-its-own-command', one.format('A', 'B') + ' or ' + one.format('B', 'A'))
+    return k
+
+
+_interleaved('loc.watchdog-during-extpos', 'loc', 'send_extpos', 'send_emergency_stop_watchdog')
+_interleaved('commander.stop-during-setpoint', 'commander', 'send_hover_setpoint', 'send_stop_setpoint')
+_interleaved('hl.stop-during-go_to', 'hl', 'go_to', 'stop')
+
+
+# ------------------------------------------------------------------------- full-state setpoint as part of a history
+
+def _full_state_history(other, thorough_only, second_concrete=False):
+    so = [sp for sp in SENDERS['commander'] if sp['m'] == other][0]
+    @contract('C08', 'send_full_state_setpoint.history.' + other + ('.quick' if second_concrete else ''),
+              [CMD + ':Commander.send_full_state_setpoint', CMD + ':Commander.' + other],
+              clause=CLAUSE + ' - full-state setpoints in a sequence on one object (full state, another command, full state again with other values): every packet, '
+              'inspected after the last call, decodes to the arguments of its own call',
+              bounded='three commands; components within +-30 (m, m/s, m/s^2, deg/s: inside the int16 millimetre range, the range check itself is the business of '
+              'send_full_state_setpoint)' + ('; the second full-state setpoint has fixed values (the fully symbolic sequence runs in the thorough tier)' if second_concrete else ''),
+              thorough_only=thorough_only, max_paths=400)
+    def k(c):
+        cf, ver = cf_with_version(c)
+        self = commander(c, cf, False)
+        c.let('ver_m', ver), c.let('xm_m', False)
+        c.uf_summary('cflib.utils.encoding:compress_quaternion', 'compq', 0, 2 ** 32 - 1,
+                     note='(range proved for non-zero finite quaternions in C13 thorough; numpy arithmetic itself is outside the subset)')
+        lay = {}
+        for s in ('a', 'b'):
+            args = []
+            if s == 'b' and second_concrete:
+                fixed = {'pos': [1.5, -2.25, 0.75], 'vel': [-0.5, 0.125, 3.0], 'acc': [0.25, -9.5, 1.0], 'q': [0.0, 0.6, 0.0, 0.8]}
+                for n in ('pos', 'vel', 'acc', 'q'):
+                    args.append(c.let(n + s, c.list(fixed[n])))
+                for n, v in (('rr', 12.5), ('pr', -7.0), ('yr', 29.75)):
+                    args.append(c.let(n + s, v))
+            else:
+                for n in ('pos', 'vel', 'acc'):
+                    args.append(c.floats(n + s, 3))
+                    c.require('all(-30.0 < v < 30.0 for v in %s%s)' % (n, s))
+                args.append(c.floats('q' + s, 4))
+                c.require('all(-1e150 <= v <= 1e150 for v in q{0}) and any(v >= 1e-150 or v <= -1e-150 for v in q{0})'.format(s))
+                for n in ('rr', 'pr', 'yr'):
+                    args.append(c.float(n + s))
+                    c.require('-30.0 < %s%s < 30.0' % (n, s))
+            lay[s] = ("pack('<BhhhhhhhhhIhhh', 6, mm(pos{0}[0]), mm(pos{0}[1]), mm(pos{0}[2]), mm(vel{0}[0]), mm(vel{0}[1]), mm(vel{0}[2]), "
+                      "mm(acc{0}[0]), mm(acc{0}[1]), mm(acc{0}[2]), compq(q{0}), mm(rr{0}), mm(pr{0}), mm(yr{0}))").format(s)
+            c.call((self, 'send_full_state_setpoint'), *args)
+            c.ensure('no-exception-' + s, 'raised is None')
+            if s == 'a':
+                vals = [_declare(c, a, '_m') for a in so['args']]
+                c.call((self, other), *vals)
+                c.ensure('no-exception-m', 'raised is None')
+        c.ensure('three-packets', 'len(sent("cf.send_packet")) == 3')
+        if _n_sent(c) == 3:
+            for i, s in ((0, 'a'), (2, 'b')):
+                c.snapshot('pk' + s, 'sent("cf.send_packet")[%d][1][0]' % i)
+                c.ensure('port-channel-header-' + s, 'pk%s.port == 7 and pk%s.channel == 0 and pk%s.header == 0x7C' % (s, s, s))
+                c.ensure('layout-' + s, 'bytes(pk%s.data) == %s' % (s, lay[s]))
+                c.ensure('at-most-30-bytes-' + s, 'len(pk%s.data) <= 30' % s)
+            _check_step(c, so, '_m', 1)
+    return k
+
+
+_full_state_history('send_notify_setpoint_stop', True)
+_full_state_history('send_notify_setpoint_stop', False, second_concrete=True)
